@@ -389,7 +389,9 @@ class Gen(object):
                        mk(5, dict(fixed=4, zero=True)), mk(6, dict(fixed=4, zero=False)), mk(7, dict(fixed=3, zero=False)),
                        mk(8, dict(zero=True)), mk(9, dict(zero=False)), mk(10, dict(length=0)),
                        # a length parameter AND a fixed size (the scanner writes both when both are annotated)
-                       mk(11, dict(length=1, fixed=4, zero=False)), mk(12, dict(length=0, fixed=3, zero=True))]
+                       mk(11, dict(length=1, fixed=4, zero=False)), mk(12, dict(length=0, fixed=3, zero=True)),
+                       # a fixed size that does not fit the 16 bits the typelib has for it
+                       mk(13, dict(fixed=70000, zero=False))]
         self.rng.shuffle(f['params'])
         # keep the two integers in front so that the length indices stay 0 and 1
         ints = [p for p in f['params'] if p['type'][0] == 'basic']
@@ -783,7 +785,16 @@ def both_dimensions(exp, got):
             if gots.get(alt, 0) > 0:
                 gots[alt] -= 1
                 out.append(alt)
-                hits.append(dict(expected=l.strip(), reported=alt.strip()))
+                hits.append(dict(finding='K1', expected=l.strip(), reported=alt.strip()))
+                continue
+        # K2: a fixed size of 2**16 or more is stored modulo 2**16
+        m = re.search(r'array\[0,zero=\d,len=-1,fixed=(\d+)', l)
+        if m and int(m.group(1)) >= 65536 and gots.get(l, 0) == 0:
+            alt = l[:m.start(1)] + str(int(m.group(1)) % 65536) + l[m.end(1):]
+            if gots.get(alt, 0) > 0:
+                gots[alt] -= 1
+                out.append(alt)
+                hits.append(dict(finding='K2', expected=l.strip(), reported=alt.strip()))
                 continue
         if l in gots and gots[l] > 0:
             gots[l] -= 1
